@@ -22,7 +22,9 @@ silent beyond the client's timeout.  `P : Frame → Resp` is the reply parser (`
   records are exactly the replies of the frames lying wholly inside the first `k` bytes, each paired
   with its own request; a frame that was not completely received yields nothing; unless that covers all
   requests the stream ends with an error (which one is stated).
-* `proxy_failure_discards`, `proxy_reconnects`, `proxy_recovers`, `proxy_conn_fresh`: the gateway automaton.
+* `proxy_failure_discards`, `proxy_reconnects`, `proxy_recovers`, `proxy_conn_fresh`, `open_fault_fails`,
+  `proxy_next_use_correct`, `fault_anywhere_then_recovers`: the gateway automaton including the open phase
+  (Register + List Identity): whatever made a use fail, the next use on a healthy device returns correct data.
 * `synchronousOld_short_silently`: the code before the `fix:` commit violates the property (witness).
 
 PARTIAL: what "silent beyond the timeout" means in wall-clock terms, `select`, half-open sockets, and
@@ -215,87 +217,78 @@ theorem exchange_zip_segmented (P : Frame → Resp) (depth : Nat) (issued : List
 
 /-! ### the proxy's gateway -/
 
-/-- **An exception inside `with proxy` discards the gateway**: after a use that failed (while connecting
-or while operating), `proxy.gateway` is `None`. -/
-theorem proxy_failure_discards (P : Frame → Resp) (depth : Nat) (conns : List (List Ev)) (p : Proxy)
-    (issued : List Iss) :
-    (∀ n rs e, (proxyUse P depth conns p issued).2 = .ran n rs (.error e) →
-      (proxyUse P depth conns p issued).1.gateway = none) ∧
-    (∀ n e, (proxyUse P depth conns p issued).2 = .connfail n e →
-      (proxyUse P depth conns p issued).1.gateway = none) := by
-  unfold proxyUse
-  constructor
-  · intro n rs e
-    cases hg : p.gateway with
-    | some g =>
-      obtain ⟨m, st⟩ := g
-      dsimp only
-      rcases pipeline P depth 0 issued st with ⟨rs', e', st'⟩
-      cases e' <;> simp
-    | none =>
-      dsimp only
-      cases hc : conns[p.opened]? with
-      | none => simp
-      | some evs =>
-        dsimp only
-        cases connect evs with
-        | error e => simp
-        | ok st =>
-          dsimp only
-          rcases pipeline P depth 0 issued st with ⟨rs', e', st'⟩
-          cases e' <;> simp
-  · intro n e
-    cases hg : p.gateway with
-    | some g =>
-      obtain ⟨m, st⟩ := g
-      dsimp only
-      rcases pipeline P depth 0 issued st with ⟨rs', e', st'⟩
-      cases e' <;> simp
-    | none =>
-      dsimp only
-      cases hc : conns[p.opened]? with
-      | none => simp
-      | some evs =>
-        dsimp only
-        cases connect evs with
-        | error e => simp
-        | ok st =>
-          dsimp only
-          rcases pipeline P depth 0 issued st with ⟨rs', e', st'⟩
-          cases e' <;> simp
+/-- a use failed: `open_gateway` raised out of `__enter__`, or the operations raised inside the `with` -/
+def UseOut.Failed : UseOut → Prop
+  | .openfail _ _ => True
+  | .ran _ _ (.error _) => True
+  | _ => False
 
 /-- what a use reports, as a value comparable across uses -/
 def UseOut.conn : UseOut → Option Nat
-  | .connfail n _ => some n
+  | .openfail n _ => some n
   | .ran n _ _ => some n
   | .refused => none
 
+/-- **Any failure discards the gateway**: after a use that failed — while connecting, while identifying the
+device (the exception then leaves `proxy.__enter__`, so `__exit__` never sees it: `open_gateway` itself must
+discard the connector), or while operating — `proxy.gateway` is `None`. -/
+theorem proxy_failure_discards (P : Frame → Resp) (ident : Bool) (depth : Nat) (conns : List (List Ev))
+    (p : Proxy) (issued : List Iss) (h : (proxyUse P ident depth conns p issued).2.Failed) :
+    (proxyUse P ident depth conns p issued).1.gateway = none := by
+  unfold proxyUse at h ⊢
+  cases hg : p.gateway with
+  | some g =>
+    obtain ⟨m, st⟩ := g
+    rw [hg] at h
+    dsimp only at h ⊢
+    revert h
+    rcases pipeline P depth 0 issued st with ⟨rs', e', st'⟩
+    cases e' <;> simp [UseOut.Failed]
+  | none =>
+    rw [hg] at h
+    dsimp only at h ⊢
+    cases hc : conns[p.opened]? with
+    | none => rw [hc] at h; simp [UseOut.Failed] at h
+    | some evs =>
+      rw [hc] at h
+      dsimp only at h ⊢
+      cases ho : openGateway ident evs with
+      | error e => rfl
+      | ok st =>
+        rw [ho] at h
+        dsimp only at h ⊢
+        revert h
+        rcases pipeline P depth 0 issued st with ⟨rs', e', st'⟩
+        cases e' <;> simp [UseOut.Failed]
+
 /-- **The next use reconnects**: with no gateway, a use opens the next connection — one never used
-before — and its outcome is that of a whole fresh exchange on it. -/
-theorem proxy_reconnects (P : Frame → Resp) (depth : Nat) (conns : List (List Ev)) (p : Proxy)
+before — and its outcome is that of a whole fresh `open_gateway` + operations on it. -/
+theorem proxy_reconnects (P : Frame → Resp) (ident : Bool) (depth : Nat) (conns : List (List Ev)) (p : Proxy)
     (issued : List Iss) (evs : List Ev) (hg : p.gateway = none) (hc : conns[p.opened]? = some evs) :
-    (proxyUse P depth conns p issued).1.opened = p.opened + 1 ∧
-    (proxyUse P depth conns p issued).2.conn = some p.opened ∧
-    (match exchange P depth issued evs with
-     | .error e => ∃ n, (proxyUse P depth conns p issued).2 = .connfail n e
-     | .ok (rs, e) => ∃ n, (proxyUse P depth conns p issued).2 = .ran n rs e) := by
-  unfold proxyUse exchange
+    (proxyUse P ident depth conns p issued).1.opened = p.opened + 1 ∧
+    (proxyUse P ident depth conns p issued).2.conn = some p.opened ∧
+    (match proxyExchange P ident depth issued evs with
+     | .error e => (proxyUse P ident depth conns p issued).2 = .openfail p.opened e
+     | .ok (rs, e) => (proxyUse P ident depth conns p issued).2 = .ran p.opened rs e) := by
+  unfold proxyUse proxyExchange
   rw [hg]; dsimp only; rw [hc]; dsimp only
-  cases connect evs with
-  | error e => exact ⟨rfl, rfl, _, rfl⟩
+  cases openGateway ident evs with
+  | error e => exact ⟨rfl, rfl, rfl⟩
   | ok st =>
     dsimp only
     rcases pipeline P depth 0 issued st with ⟨rs', e', st'⟩
-    cases e' <;> exact ⟨rfl, rfl, _, rfl⟩
+    cases e' <;> exact ⟨rfl, rfl, rfl⟩
 
 /-- gateway numbers are below the count of connections opened: a new connection is never a reused one -/
 def Proxy.Inv (p : Proxy) : Prop := ∀ n st, p.gateway = some (n, st) → n < p.opened
 
-theorem proxy_conn_fresh (P : Frame → Resp) (depth : Nat) (conns : List (List Ev)) (p : Proxy)
+theorem proxy_conn_fresh (P : Frame → Resp) (ident : Bool) (depth : Nat) (conns : List (List Ev)) (p : Proxy)
     (issued : List Iss) (hinv : p.Inv) :
-    (proxyUse P depth conns p issued).1.Inv ∧ p.opened ≤ (proxyUse P depth conns p issued).1.opened ∧
-    (∀ n, (proxyUse P depth conns p issued).2.conn = some n → n < (proxyUse P depth conns p issued).1.opened) ∧
-    (p.gateway = none → ∀ n, (proxyUse P depth conns p issued).2.conn = some n → n = p.opened) := by
+    (proxyUse P ident depth conns p issued).1.Inv ∧
+    p.opened ≤ (proxyUse P ident depth conns p issued).1.opened ∧
+    (∀ n, (proxyUse P ident depth conns p issued).2.conn = some n →
+      n < (proxyUse P ident depth conns p issued).1.opened) ∧
+    (p.gateway = none → ∀ n, (proxyUse P ident depth conns p issued).2.conn = some n → n = p.opened) := by
   unfold proxyUse Proxy.Inv at *
   cases hg : p.gateway with
   | some g =>
@@ -310,38 +303,141 @@ theorem proxy_conn_fresh (P : Frame → Resp) (depth : Nat) (conns : List (List 
     | none => simp [UseOut.conn, hg]
     | some evs =>
       dsimp only
-      cases connect evs with
+      cases openGateway ident evs with
       | error e => simp [UseOut.conn]
       | ok st =>
         dsimp only
         rcases pipeline P depth 0 issued st with ⟨rs', e', st'⟩
         cases e' <;> simp [UseOut.conn]
 
-/-- **… and returns correct data**: after a failure (`gateway = none`), if the next connection delivers
-the peer's whole stream `reg :: fs` answering the requests in order, the use yields every request's own
-reply and no error — on the new connection. -/
-theorem proxy_recovers (P : Frame → Resp) (depth : Nat) (conns : List (List Ev)) (p : Proxy)
-    (issued : List Iss) (reg : Frame) (fs : List Frame) (closed : Bool)
+/-- **Every fault position of the gateway-opening phase** (proxy without `identity_default`): a reply stream
+cut anywhere inside the Register reply or inside the List Identity reply makes `open_gateway` fail (which
+exception is stated by `open_cut`), whatever would have followed. -/
+theorem open_fault_fails (P : Frame → Resp) (depth : Nat) (issued : List Iss) (reg idf : Frame) (fs : List Frame)
+    (k : Nat) (closed : Bool) (hr : IsRegister reg) (hi : IsIdentity idf)
+    (hk : k < (encodeFrame reg).length + (encodeFrame idf).length) :
+    ∃ e, proxyExchange P true depth issued [.data ((stream (reg :: idf :: fs)).take k), termEv closed] = .error e := by
+  unfold proxyExchange
+  rw [open_cut reg idf fs k closed hr hi]
+  by_cases h1 : (encodeFrame reg).length ≤ k
+  · have h2 : ¬ (encodeFrame idf).length ≤ k - (encodeFrame reg).length := by omega
+    simp only [h1, h2, if_true, if_false]; exact ⟨_, rfl⟩
+  · simp only [h1, if_false]; exact ⟨_, rfl⟩
+
+/-- the whole stream of a healthy device opens the gateway and leaves exactly the replies to the operations -/
+theorem open_whole (ident : Bool) (reg idf : Frame) (fs : List Frame) (closed : Bool) (hr : IsRegister reg)
+    (hi : IsIdentity idf) :
+    ∃ k, (stream fs).length ≤ k ∧
+      openGateway ident [.data (stream (openFrames ident reg idf ++ fs)), termEv closed] =
+        .ok (cutState fs k closed) := by
+  cases ident with
+  | true =>
+    refine ⟨(stream (reg :: idf :: fs)).length - (encodeFrame reg).length - (encodeFrame idf).length, ?_, ?_⟩
+    · simp only [stream_cons, List.length_append]; omega
+    · have h := open_cut reg idf fs (stream (reg :: idf :: fs)).length closed hr hi
+      rw [List.take_length] at h
+      have h1 : (encodeFrame reg).length ≤ (stream (reg :: idf :: fs)).length := by
+        simp only [stream_cons, List.length_append]; omega
+      have h2 : (encodeFrame idf).length ≤ (stream (reg :: idf :: fs)).length - (encodeFrame reg).length := by
+        simp only [stream_cons, List.length_append]; omega
+      rw [if_pos h1, if_pos h2] at h
+      simpa [openFrames, cutState] using h
+  | false =>
+    refine ⟨(stream (reg :: fs)).length - (encodeFrame reg).length, ?_, ?_⟩
+    · simp only [stream_cons, List.length_append]; omega
+    · have h := open_cut_noident reg fs (stream (reg :: fs)).length closed hr
+      rw [List.take_length] at h
+      have h1 : (encodeFrame reg).length ≤ (stream (reg :: fs)).length := by
+        simp only [stream_cons, List.length_append]; omega
+      rw [if_pos h1] at h
+      simpa [openFrames, cutState] using h
+
+/-- **… and returns correct data**: with no gateway, if the next connection is to a healthy device — it
+delivers the whole stream: Register reply, List Identity reply (when the proxy identifies), and replies `fs`
+answering the requests in order — the use yields every request's own reply and no error, on that new
+connection. -/
+theorem proxy_recovers (P : Frame → Resp) (ident : Bool) (depth : Nat) (conns : List (List Ev)) (p : Proxy)
+    (issued : List Iss) (reg idf : Frame) (fs : List Frame) (closed : Bool)
     (hg : p.gateway = none)
-    (hc : conns[p.opened]? = some [.data (stream (reg :: fs)), termEv closed])
-    (hr : IsRegister reg) (hs : Served P fs) (hm : AllMatch issued (fs.flatMap (colsOf P)))
+    (hc : conns[p.opened]? = some [.data (stream (openFrames ident reg idf ++ fs)), termEv closed])
+    (hr : IsRegister reg) (hi : IsIdentity idf) (hs : Served P fs)
+    (hm : AllMatch issued (fs.flatMap (colsOf P)))
     (hn : issued.length ≤ (fs.flatMap (colsOf P)).length) :
-    (proxyUse P depth conns p issued).2 =
+    (proxyUse P ident depth conns p issued).2 =
       .ran p.opened ((issued.zip (fs.flatMap (colsOf P))).map mkRes) .ok := by
-  have hx := exchange_cut P depth issued reg fs (stream (reg :: fs)).length closed hr hs hm
-  unfold exchangeCutSpec at hx
-  rw [List.take_length] at hx
-  have hlen : (encodeFrame reg).length ≤ (stream (reg :: fs)).length := by
-    rw [stream_cons, List.length_append]; omega
-  have hk : (stream fs).length ≤ (stream (reg :: fs)).length - (encodeFrame reg).length := by
-    rw [stream_cons, List.length_append]; omega
-  rw [if_pos hlen, whole_total fs _ hk, List.take_length, if_pos hn] at hx
-  obtain ⟨_, h2, h3⟩ := proxy_reconnects P depth conns p issued _ hg hc
-  rw [hx] at h3
-  obtain ⟨n, h3⟩ := h3
-  rw [h3] at h2 ⊢
-  simp only [UseOut.conn, Option.some.injEq] at h2
-  rw [h2]
+  obtain ⟨k, hk, ho⟩ := open_whole ident reg idf fs closed hr hi
+  obtain ⟨h1, h2⟩ := complete_exchange P depth 0 issued fs k closed (cutState fs k closed) rfl hs hm hk hn
+  obtain ⟨_, _, h3⟩ := proxy_reconnects P ident depth conns p issued _ hg hc
+  unfold proxyExchange at h3
+  rw [ho] at h3
+  dsimp only at h3
+  rw [h3, h1, h2]
+
+/-- **The last sentence of the property, at full strength**: a use of the proxy fails — for *whatever* reason:
+any fault at any byte offset of the open phase (Register, List Identity) or of the data phase, in either
+direction, EOF or silence, lost or foreign replies, on a gateway it already had or on one it was opening — then
+the connection is discarded, and the next use, finding a healthy device, reconnects on a connection never
+used before and returns every request's own reply without error. -/
+theorem proxy_next_use_correct (P : Frame → Resp) (ident : Bool) (depth : Nat) (conns : List (List Ev))
+    (p : Proxy) (issued₁ issued₂ : List Iss) (reg idf : Frame) (fs : List Frame) (closed : Bool)
+    (hinv : p.Inv)
+    (hfail : (proxyUse P ident depth conns p issued₁).2.Failed)
+    (hc : conns[(proxyUse P ident depth conns p issued₁).1.opened]? =
+      some [.data (stream (openFrames ident reg idf ++ fs)), termEv closed])
+    (hr : IsRegister reg) (hi : IsIdentity idf) (hs : Served P fs)
+    (hm : AllMatch issued₂ (fs.flatMap (colsOf P)))
+    (hn : issued₂.length ≤ (fs.flatMap (colsOf P)).length) :
+    (proxyUse P ident depth conns p issued₁).1.gateway = none ∧
+    (∀ n, (proxyUse P ident depth conns p issued₁).2.conn = some n →
+      n < (proxyUse P ident depth conns p issued₁).1.opened) ∧
+    (proxyUse P ident depth conns (proxyUse P ident depth conns p issued₁).1 issued₂).2 =
+      .ran (proxyUse P ident depth conns p issued₁).1.opened
+        ((issued₂.zip (fs.flatMap (colsOf P))).map mkRes) .ok := by
+  have hg := proxy_failure_discards P ident depth conns p issued₁ hfail
+  exact ⟨hg, (proxy_conn_fresh P ident depth conns p issued₁ hinv).2.2.1,
+    proxy_recovers P ident depth conns _ issued₂ reg idf fs closed hg hc hr hi hs hm hn⟩
+
+/-- … in particular for a fresh proxy whose first connection behaves in any way at all (`evs₀` arbitrary: cut at
+any offset of Register / List Identity / data replies, garbage, silence) and whose second connection is to a
+healthy device: either the first use succeeded, or the second returns correct data on connection 1. -/
+theorem fault_anywhere_then_recovers (P : Frame → Resp) (ident : Bool) (depth : Nat) (evs₀ : List Ev)
+    (issued₁ issued₂ : List Iss) (reg idf : Frame) (fs : List Frame) (closed : Bool)
+    (hr : IsRegister reg) (hi : IsIdentity idf) (hs : Served P fs)
+    (hm : AllMatch issued₂ (fs.flatMap (colsOf P)))
+    (hn : issued₂.length ≤ (fs.flatMap (colsOf P)).length) :
+    (∃ rs, (proxyUse P ident depth [evs₀, [.data (stream (openFrames ident reg idf ++ fs)), termEv closed]]
+        { gateway := none, opened := 0 } issued₁).2 = .ran 0 rs .ok) ∨
+    (proxyUse P ident depth [evs₀, [.data (stream (openFrames ident reg idf ++ fs)), termEv closed]]
+      (proxyUse P ident depth [evs₀, [.data (stream (openFrames ident reg idf ++ fs)), termEv closed]]
+        { gateway := none, opened := 0 } issued₁).1 issued₂).2 =
+      .ran 1 ((issued₂.zip (fs.flatMap (colsOf P))).map mkRes) .ok := by
+  have hrec := proxy_reconnects P ident depth
+    [evs₀, [.data (stream (openFrames ident reg idf ++ fs)), termEv closed]]
+    { gateway := none, opened := 0 } issued₁ evs₀ rfl rfl
+  obtain ⟨hop, _, hout⟩ := hrec
+  cases hx : proxyExchange P ident depth issued₁ evs₀ with
+  | error e =>
+    rw [hx] at hout
+    right
+    have hfail : (proxyUse P ident depth
+        [evs₀, [.data (stream (openFrames ident reg idf ++ fs)), termEv closed]]
+        { gateway := none, opened := 0 } issued₁).2.Failed := by rw [hout]; trivial
+    have := proxy_next_use_correct P ident depth _ { gateway := none, opened := 0 } issued₁ issued₂ reg idf fs
+      closed (by intro n st h; simp at h) hfail (by rw [hop]; rfl) hr hi hs hm hn
+    rw [this.2.2, hop]
+  | ok r =>
+    obtain ⟨rs, e⟩ := r
+    rw [hx] at hout
+    cases e with
+    | ok => exact Or.inl ⟨rs, hout⟩
+    | error er =>
+      right
+      have hfail : (proxyUse P ident depth
+          [evs₀, [.data (stream (openFrames ident reg idf ++ fs)), termEv closed]]
+          { gateway := none, opened := 0 } issued₁).2.Failed := by rw [hout]; trivial
+      have := proxy_next_use_correct P ident depth _ { gateway := none, opened := 0 } issued₁ issued₂ reg idf fs
+        closed (by intro n st h; simp at h) hfail (by rw [hop]; rfl) hr hi hs hm hn
+      rw [this.2.2, hop]
 
 /-! ### `synchronous` -/
 
@@ -432,17 +528,34 @@ theorem synchronousOld_short_silently' :
   ⟨{ buf := ((stream (regFrame :: threeReplies)).take 78).drop 28, evs := [.quiet], pend := [] },
     by decide +kernel⟩
 
+/-- a List Identity reply (payload abbreviated: the model's `identify` only looks at command and status) -/
+def identFrame : Frame :=
+  { cmd := 0x63, session := 0x11223344, status := 0, ctx := [0, 0, 0, 0, 0, 0, 0, 0], options := 0,
+    payload := [1, 0, 0x0c, 0, 4, 0, 1, 0, 0, 0] }
+
+example : IsIdentity identFrame := by decide
+
+def showUseOut : UseOut → Nat × Nat × Option Err
+  | .ran n rs .ok => (n, rs.length, none)
+  | .ran n rs (.error e) => (n, rs.length, some e)
+  | .openfail n _ => (n, 1000, none)
+  | .refused => (99, 0, none)
+
 /-- the proxy: first connection cut inside reply 1, second connection whole: failure, gateway discarded,
 reconnect on connection 1, correct data -/
-example : (proxyRun parseFrame 2
+example : (proxyRun parseFrame false 2
       [[.data ((stream (regFrame :: threeReplies)).take 88), .eof],
        [.data (stream (regFrame :: threeReplies)), .quiet]]
-      { gateway := none, opened := 0 } [threeIssued, threeIssued]).map
-      (fun o => match o with
-        | .ran n rs e => (n, rs.length, e)
-        | .connfail n _ => (n, 0, .error .rxerror)
-        | .refused => (99, 0, .ok)) =
-    [(0, 1, .error .rxerror), (1, 3, .ok)] := by decide +kernel
+      { gateway := none, opened := 0 } [threeIssued, threeIssued]).map showUseOut =
+    [(0, 1, some .rxerror), (1, 3, none)] := by decide +kernel
+
+/-- the proxy identifying its device: first connection cut inside the List Identity reply (offset 28 + 10):
+`open_gateway` fails, nothing is kept; the next use opens connection 1 and gets all three values -/
+example : (proxyRun parseFrame true 2
+      [[.data ((stream (regFrame :: identFrame :: threeReplies)).take 38), .eof],
+       [.data (stream (regFrame :: identFrame :: threeReplies)), .quiet]]
+      { gateway := none, opened := 0 } [threeIssued, threeIssued]).map showUseOut =
+    [(0, 1000, none), (1, 3, none)] := by decide +kernel
 
 /-! ### Tie to what the live source says (regenerated on every run by `harness/extract.d/clientrx.py`) -/
 
